@@ -183,6 +183,32 @@ func markWrite(l *Loop, addr ssa.Value) {
 	case *ssa.Alloc:
 		l.Cells[a] = true
 	case *ssa.FieldAddr:
+		// field of a slice element: only the heaps of that field are written
+		var path []int
+		var cur ssa.Value = a
+		for {
+			fa, ok := cur.(*ssa.FieldAddr)
+			if !ok {
+				break
+			}
+			path = append([]int{fa.Field}, path...)
+			cur = fa.X
+		}
+		if ia, ok := cur.(*ssa.IndexAddr); ok {
+			if _, isAlloc := ia.X.(*ssa.Alloc); !isAlloc {
+				et := deref(ia.Type())
+				if _, isStruct := et.Underlying().(*types.Struct); isStruct && lookupOpaque(et) == nil {
+					ks := leafKeysForPath(et, path)
+					if len(ks) > 0 {
+						for _, k := range ks {
+							l.HeapSorts[k] = true
+							noteWriter(l, k, ia.X)
+						}
+						return
+					}
+				}
+			}
+		}
 		markWrite(l, a.X)
 	case *ssa.IndexAddr:
 		// element of slice: heap of that element type; element of *array local: the alloc
